@@ -592,14 +592,19 @@ func (e *env) hostCall(j int, arg goja.Value) goja.Value {
 		if strings.HasPrefix(err.Error(), "harness:") {
 			panic(err.Error())
 		}
+		var ie *goja.InterruptedError
+		var so *goja.StackOverflowError
 		if op.Swallow {
-			if _, ok := err.(*goja.InterruptedError); ok {
+			if errors.As(err, &ie) {
 				e.swallowed++
 			}
 			return e.vm.ToValue("E:" + e.descErr(err, "return").Kind)
 		}
-		switch err.(type) {
-		case *goja.Exception, *goja.InterruptedError, *goja.StackOverflowError:
+		if _, ok := err.(*goja.Exception); ok {
+			panic(err)
+		}
+		if errors.As(err, &ie) || errors.As(err, &so) {
+			// also when an inner hostw has wrapped it: it stays the uncatchable condition
 			panic(err)
 		}
 		// a plain Go error (the unwrapped GoError returned by an ExportTo'd func)
